@@ -66,6 +66,27 @@ def discover(prop, tier, only=None):
 def find_item(src, spec):
     """returns (start, body_open, body_close) for the item spec"""
     spec = spec.strip()
+    # critical section: "<fn spec> :: after /<regex>/ [#n]" -> from the end of the n-th match of <regex> inside the fn to the
+    # end of the block that encloses it (the text a lock guard taken at that statement protects)
+    mo = re.match(r'(.*?)\s*::\s*after\s+/(.*)/(?:\s*#(\d+))?$', spec)
+    if mo:
+        s0, o0, c0 = find_item(src, mo.group(1))
+        nth = int(mo.group(3) or 0)
+        ms = list(src.find_code(mo.group(2), o0, c0))
+        if nth >= len(ms):
+            raise rustx.ExtractError('statement /%s/ #%d not found in %s' % (mo.group(2), nth, mo.group(1)))
+        start = ms[nth].end()
+        j = start
+        t, m = src.text, src.mask
+        while j < c0:
+            if m[j]:
+                if t[j] in '([{':
+                    j = src.match_close(j)
+                elif t[j] == '}':
+                    # returned as (item start, "open" = start-1, close = j) so that mode=body yields text[start:j]
+                    return ms[nth].start(), start - 1, j
+            j += 1
+        raise rustx.ExtractError('enclosing block of /%s/ #%d not closed' % (mo.group(2), nth))
     # nested block:  "<fn spec> :: block <keyword> [#n]"  -> the `{...}` that follows the n-th `<keyword>` token in the fn
     mo = re.match(r'(.*?)\s*::\s*block\s+(\w+)(?:\s*#(\d+))?$', spec)
     if mo:
